@@ -17,3 +17,28 @@ def reject_lk_x(section):
     if getattr(section, "lk", None) == "x":
         raise ValueError("lk must not be x")
     return section
+
+
+RAISED = []          # ValueError instances raised by strict_int, newest last
+
+
+def strict_int(text):
+    """integer conversion that remembers the exception instance it raises (C08)."""
+    try:
+        return int(text)
+    except ValueError:
+        e = ValueError("not an integer: %r" % (text,))
+        RAISED.append(e)
+        del RAISED[:-4]
+        raise e
+
+
+def reject_section(section):
+    """Section datatype that refuses (ValueError) a section whose 'lk' is 'x',
+    remembering the instance."""
+    if getattr(section, "lk", None) == "x":
+        e = ValueError("lk must not be x")
+        RAISED.append(e)
+        del RAISED[:-4]
+        raise e
+    return section
